@@ -1,4 +1,6 @@
 """C11 - inversion solvers: SART follows its documented update rule, NNLS / LSQ / SVD return true minimisers."""
+import warnings
+
 import numpy as np
 import scipy.optimize
 from hypothesis import strategies as st
@@ -9,17 +11,26 @@ from ..findings import is_open
 from cherab.tools.inversions import (invert_sart, invert_constrained_sart, invert_regularised_nnls,
                                      invert_regularised_lstsq, invert_svd)
 
+warnings.filterwarnings("ignore", category=RuntimeWarning)     # overflow / invalid warnings of deliberately extreme inputs
+
 ID = "C11"
 SHARDS = {"quick": 8, "thorough": 16}
 RULE = ("One case = one solver call on a drawn (W, b, parameters). W is m x n with m, n in 1..12 (under-, over-determined and "
-        "square), entries >= 0 drawn from {0 (sparse), k/8, floats in [0.01, 1]} times a scale in {1e-3, 1, 30}; then exact "
+        "square), entries >= 0 drawn from {0 (sparse), k/8, floats in [0.01, 1]}; then exact "
         "structure is imposed: zeroed rows, zeroed columns, columns overwritten by {1, 2, 0.5} x another column and duplicated "
-        "rows (exact rank deficiency). b is 'consistent' (W x_true with up to 10% multiplicative noise), 'random' non-negative, "
+        "rows (exact rank deficiency); the whole of W is then multiplied by an overall scale (1 in half of the draws, else 2^k, "
+        "|k| <= 100, or 10^e, |e| <= 30: small / large physical units) and in a quarter of the float64 draws one voxel is only "
+        "grazed: a single entry (optionally the only one of its column) is set to a weight 1e-13 ... 1e-300 or a subnormal. b "
+        "gets its own independent overall scale from the same distribution, a float64 initial guess the natural one max|b|/max W, "
+        "1 or an independent one. b is 'consistent' (W x_true with up to 10% multiplicative noise), 'random' non-negative, "
         "'mixed_sign' (>=1 positive and >=1 negative entry) or, for lstsq/svd only, all zero. SART: initial guess None / float / "
         "int / array (a few arrays with negative entries), relaxation (0, 1.5], beta_laplace [0, 0.2], Laplacian identity / 1-D "
         "(Neumann or Dirichlet) / 2-D 4- or 8-neighbour / random, max_iterations 1..60, conv_tol in {0, 1e-8..1e-1}, plus calls "
         "that rely on the documented defaults. NNLS / LSQ: alpha log-uniform in [1e-3, 10], Tikhonov matrix None / identity / "
-        "Laplacians / random. Input forms (only those the functions accept on the unchanged tree): for nnls / lstsq / svd W is "
+        "Laplacians / random. Scale equivariance (a third of the cases, c = 2^k, |k| <= 60): SART(cW, cb, x0) = SART(W, b, x0) "
+        "and SART(W, cb, c x0) = c SART(W, b, x0) with an unchanged convergence list; solve(W, cb) = c solve(W, b) and "
+        "solve(cW, cb; c alpha) = solve(W, b; alpha) for nnls / lstsq / svd; the second solve uses the same dtypes-free float64 data "
+        "in the same memory layout, results must be bit-identical (else inside a conditioning bound). Input forms (only those the functions accept on the unchanged tree): for nnls / lstsq / svd W is "
         "float64, float32, int64, int32 (0/1 incidence or small hit counts) or bool, b is float64, float32, int64 or int32, the "
         "Tikhonov matrix float64, float32, int64, int32 or bool (identity / random 0-1), each C-ordered, Fortran-ordered or a "
         "non-contiguous strided view; every result is certified against the float64 copy of exactly the numbers those arrays "
@@ -60,6 +71,13 @@ ASSUMPTIONS = [
     "certificate (label precision:single), int32 / int64 W the full one; float16, int8/16 and uint8 inputs are not generated",
     "SART input forms: lists / non-float64 arrays for geometry_matrix and measurement_vector raise (typed memoryviews, no "
     "attribute shape) and are outside the domain; numpy scalar guesses (np.float32(1)) raise as well and are not generated",
+    "scaling by 2^k is exact in every intermediate as long as all non-zero magnitudes (inputs, scaled inputs, first result) stay in "
+    "[1e-100, 1e100]; equivariance is only tested then (label equiv:skipped_range otherwise, e.g. with a 1e-300 voxel)",
+    "sums W(k,+) / W(+,l) below 5.56e-309 (subnormal; their reciprocal overflows) make the SART solvers return nan: open finding "
+    "C11-sart-subnormal-sum-overflow, that input class is labelled excluded_known and not judged while it is open; when the literal "
+    "evaluation of the update rule itself overflows (reference not finite) the case is inconclusive",
+    "nnls / lstsq / svd: when the smallest singular value the solver keeps is below 1e-290 the pseudo-inverse (1/sigma) and "
+    "possibly the minimiser exceed the largest double; such cases are skipped (label skipped:pseudo_inverse_not_representable)",
     "numpy.linalg.svd / norm / dot are trusted for the certificates (gradient, residual, null-space projector)",
     "scipy.optimize.nnls raising RuntimeError('Maximum number of iterations reached') is counted as inconclusive for that case",
     "while finding C11-nnls-scipy-nonoptimal is open, nnls cases on which scipy.optimize.nnls itself (called directly on the "
@@ -74,8 +92,14 @@ TOLERANCES = {
                                  "sqrt(1+|conv|) * |W|_F * max|x| / |b|), the first-order propagation of a relative error in x. A case is compared only if two reference "
                                  "evaluations with different summation order (sequential loops vs. vectorised) agree to 1e-12 * "
                                  "scale and on the iteration count (measured conditioning, 100x margin); otherwise it is labelled "
-                                 "inconclusive:ill_conditioned. A stop decision closer than 1e-10 * scale to conv_tol is labelled "
+                                 "inconclusive:ill_conditioned. A stop decision closer to conv_tol than 1000 x the measured difference of the "
+                                 "convergence numbers between the two summation orders (+ 1e-12 relative) is labelled "
                                  "inconclusive:stop_ambiguous",
+    "scale": "every tolerance is relative to the magnitudes of the case (|C|, |x|, |d|, largest iterate, summed update terms), so it "
+             "follows the overall scales; norms and eps are evaluated without squaring (no under / overflow for 1e+-160 entries)",
+    "scale equivariance": "bit-identical expected (observed: always, once the second call uses the same memory layout); fallback "
+                          "SART: 1e-10 * scale of the first call; linear solvers: 1e-12 * kappa(C)^2 * (|x| + |d|/|C|), only for a "
+                          "clearly full-rank stacked matrix",
     "sart fixed point": "1e-11 * max|x*|: per iteration the update is bounded by relaxation * n * u * max|x*| (rounding of W x* "
                         "only) plus beta * |L| * u * max|x*|; 60 iterations * 1.5 * 12 * 1.1e-16 = 1.2e-13",
     "eps (gradient)": "nnls / lstsq: 1e-12 * (|C|_2^2 |x|_2 + |C|_2 |d|_2). Householder-QR (Lawson-Hanson) and SVD (gelsd) solvers are "
@@ -121,7 +145,15 @@ REQUIRED_LABELS = [
     ["nnls:layout:L=strided", "lstsq:layout:L=strided", "nnls:layout:L=F", "lstsq:layout:L=F", "svd:precision:single",
      "nnls:precision:L_float32", "lstsq:precision:L_float32",
      "sart:dtype:L=float32", "sart:dtype:L=int64", "sart:dtype:L=int32", "sart:layout:L=strided",
-     "sart:guess:float32", "sart:guess:int64", "sart:guess:int32", "sart:guess:list"]
+     "sart:guess:float32", "sart:guess:int64", "sart:guess:int32", "sart:guess:list"] + \
+    ["%s:%s" % (sub, lab) for sub, labs in (      # overall scales 1e-30 ... 1e30, grazed voxels, scale equivariance
+        ("sart", ("scale:W<=1e-13", "scale:W>=1e13", "scale:b<=1e-13", "scale:b>=1e13", "W:colsum<=1e-12", "W:grazed_voxel",
+                  "W:small_units", "W:subnormal", "equiv:Wb", "equiv:b", "equiv:bit_exact")),
+        ("sart_fixed", ("scale:W<=1e-13", "scale:W>=1e13", "W:grazed_voxel", "W:small_units")),
+        ("nnls", ("scale:W<=1e-13", "scale:W>=1e13", "scale:b<=1e-13", "scale:b>=1e13", "W:grazed_voxel", "W:small_units",
+                  "equiv:Wb", "equiv:b", "equiv:bit_exact")),
+        ("lstsq", ("scale:W<=1e-13", "scale:W>=1e13", "W:grazed_voxel", "W:small_units", "equiv:Wb", "equiv:b", "equiv:bit_exact")),
+        ("svd", ("scale:W<=1e-13", "W:small_units", "equiv:Wb", "equiv:b", "equiv:bit_exact"))) for lab in labs]
 
 U = 2.0 ** -52
 DEFAULTS = {"max_it": 250, "relax": 1.0, "conv_tol": 1.0e-4, "beta": 0.01, "alpha": 0.01}   # documented defaults
@@ -141,6 +173,17 @@ _LAYOUT1 = st.sampled_from(["C", "C", "strided"])
 _W_DTYPE = st.sampled_from(["float64", "float64", "float64", "float32", "int64", "int32", "bool"])
 _B_DTYPE = st.sampled_from(["float64", "float64", "float64", "float32", "int64", "int32"])
 _L_DTYPE = st.sampled_from(["float64", "float64", "float64", "float32", "int64", "int32", "bool"])
+
+
+# overall scale of a whole array: 1 (half of the draws), an exact power of two or a power of ten, 1e-30 ... 1e30
+_SCALE = st.one_of(st.just(1.0), st.just(1.0), st.integers(-100, 100).map(lambda k: 2.0 ** k),
+                   st.floats(-30.0, 30.0).map(lambda e: 10.0 ** e))
+_SCALE32 = st.one_of(st.just(1.0), st.integers(-80, 80).map(lambda k: 2.0 ** k))       # stays inside the float32 range
+# weight of a voxel that is only grazed: normal numbers down to 1e-300 and subnormals
+_TINY = st.one_of(st.floats(13.0, 300.0).map(lambda e: 10.0 ** -e), st.sampled_from([3e-13, 1e-13, 1e-300, 2.3e-308, 1e-310, 5e-324]))
+_EQUIV = st.one_of(st.none(), st.none(),
+                   st.fixed_dictionaries({"kind": st.sampled_from(["Wb", "b", "b"]),
+                                          "k": st.one_of(st.integers(-60, 60), st.sampled_from([-45, -40, 40, 45]))}))
 
 
 @st.composite
@@ -171,8 +214,15 @@ def w_matrix(draw, dtype="float64"):
         for j in draw(st.sets(st.integers(0, n - 1), max_size=2)):           # zero columns (cell seen by no ray)
             for r in w:
                 r[j] = 0.0
-    s = 1.0 if integral else draw(st.sampled_from([1.0, 1.0, 1e-3, 30.0]))
-    return [[v * s for v in r] for r in w]
+    s = 1.0 if integral else draw(_SCALE32 if dtype == "float32" else _SCALE)
+    w = [[v * s for v in r] for r in w]
+    if dtype == "float64" and draw(st.integers(0, 3)) == 0:                   # one voxel that is only grazed by a ray
+        i, j, t = draw(st.integers(0, m - 1)), draw(st.integers(0, n - 1)), draw(_TINY)
+        if draw(st.booleans()):                                              # ... and seen by nothing else
+            for r in w:
+                r[j] = 0.0
+        w[i][j] = t
+    return w
 
 
 def _signed(hi):
@@ -189,7 +239,7 @@ def b_vector(draw, w, kinds, dtype="float64"):
     m, n = len(w), len(w[0])
     kind = draw(st.sampled_from(kinds))
     integral = dtype in ("int64", "int32")
-    s = draw(st.sampled_from([1.0, 1.0, 1e2] if integral else [1.0, 1.0, 1e-2, 1e2]))
+    s = draw(_SCALE)                                                         # independent of the scale of W
     if kind == "zero":
         return {"kind": kind, "v": [0.0] * m}
     if kind == "consistent":
@@ -205,12 +255,17 @@ def b_vector(draw, w, kinds, dtype="float64"):
         if m == 1:
             kind = "random"
     b = [v * s for v in b]
+    top = max(abs(v) for v in b)
+    if integral or dtype == "float32":                                      # keep inside the range of the dtype
+        if top > 0 and not 1e-2 <= top <= 1e6:
+            b = [v / top * 100.0 for v in b]
+        s = 1.0
     if integral:                                                             # integer measurements (counts)
         b = [float(round(v)) for v in b]
         if kind == "mixed_sign" and not any(v < 0 for v in b):
             kind = "random"
-    if not any(v > 0 for v in b):                                            # main classes: at least one positive entry
-        b[0] = float(round(s * (1.0 + abs(b[0])))) if integral else s * (1.0 + abs(b[0]))
+    if not any(v > 1e-140 for v in b):          # main classes: at least one positive entry whose square does not underflow
+        b[0] = 1.0 + abs(b[0]) if integral else max(s * (1.0 + abs(b[0])), 1e-140)
     return {"kind": kind, "v": b}
 
 
@@ -285,6 +340,16 @@ def sart_case(draw):
         case["guess_form"] = draw(st.sampled_from(["int64", "int32"]))
     else:
         case["guess"] = None
+    if g in ("float", "array", "array_signed", "list"):                      # float64 guesses: overall scale as well
+        wtop = max(max(r) for r in w)
+        nat = max(abs(v) for v in case["b"]["v"]) / wtop if wtop > 0 else 1.0   # the magnitude a solution has
+        gs = draw(st.sampled_from([nat if 1e-150 < nat < 1e150 else 1.0, 1.0, None]))
+        gs = draw(_SCALE) if gs is None else gs
+        case["guess"] = [v * gs for v in case["guess"]] if isinstance(case["guess"], list) else case["guess"] * gs
+    elif g == "array_f32":
+        gs = draw(_SCALE32)
+        case["guess"] = [v * gs for v in case["guess"]]
+    case["equiv"] = draw(_EQUIV)
     if draw(st.integers(0, 9)) == 0:
         case["defaults"] = True                                            # rely on the documented default parameters
     else:
@@ -322,12 +387,12 @@ def sart_fixed_case(draw):
         const = draw(st.one_of(st.integers(0, 8).map(float), st.floats(1e-3, 100.0)))
     xs = [const] * n if const is not None else draw(_nonneg_vec(n, 100.0))
     # b = W x* must not vanish identically (division by |b|^2): force one positive product
-    if not any(w[i][j] * xs[j] > 0 for i in range(m) for j in range(n)):
+    if not any(w[i][j] * xs[j] > 1e-140 for i in range(m) for j in range(n)):     # |b|^2 must not underflow
         if const is not None:
             xs = [max(const, 1.0)] * n
         else:
             xs[0] = 1.0
-        if not any(w[i][j] * xs[j] > 0 for i in range(m) for j in range(n)):
+        if not any(w[i][j] * xs[j] > 1e-140 for i in range(m) for j in range(n)):
             w[0][0] = 1.0
     case["xstar"] = xs
     case["scalar_guess"] = bool(const is not None and draw(st.booleans()))
@@ -345,6 +410,7 @@ def reg_case(draw, bkinds):
     if draw(st.integers(0, 11)) != 0:
         case["alpha"] = 10.0 ** draw(st.floats(-3.0, 1.0))
     case["reuse"] = _reuse(draw, _alpha_override)
+    case["equiv"] = draw(_EQUIV)
     return case                                 # no "alpha" key: documented default alpha = 0.01
 
 
@@ -362,7 +428,7 @@ def svd_case(draw):
     w = draw(w_matrix(wdt))
     return {"W": w, "b": draw(b_vector(w, ["consistent", "consistent", "random", "mixed_sign", "zero"], bdt)),
             "W_dtype": wdt, "b_dtype": bdt, "layout": draw(_LAYOUT2), "b_layout": draw(_LAYOUT1),
-            "reuse": _reuse(draw, st.just({}))}
+            "reuse": _reuse(draw, st.just({})), "equiv": draw(_EQUIV)}
 
 
 # ------------------------------------------------------------------------------------------------ helpers
@@ -398,12 +464,28 @@ def build_L(spec, n):
     return L
 
 
-def w_classes(W, ctx):
+def w_classes(W, ctx, b=None):
     """labels for the structure of W; returns (zero_row_or_col, rank, n, rank_ambiguous, Vh)."""
     m, n = W.shape
     ctx.label("shape:under" if m < n else ("shape:over" if m > n else "shape:square"))
+    cs = W.sum(axis=0)
     zr = bool(np.any(W.sum(axis=1) == 0))
-    zc = bool(np.any(W.sum(axis=0) == 0))
+    zc = bool(np.any(cs == 0))
+    top = float(W.max()) if W.size else 0.0
+    if top > 0:
+        e = np.log10(top)
+        ctx.label("scale:W<=1e-13" if e <= -13 else ("scale:W<1e-3" if e < -3 else ("scale:W>=1e13" if e >= 13 else
+                  ("scale:W>1e3" if e > 3 else "scale:W~1"))))
+        pc = cs[cs > 0]
+        if pc.min() <= 1e-12:
+            ctx.label("W:colsum<=1e-12")                              # some seen voxel has a tiny column sum ...
+            ctx.label("W:small_units" if pc.max() <= 1e-12 else "W:grazed_voxel")   # ... all of them / next to O(1) ones
+        if bool(np.any((W > 0) & (W < 2.3e-308))):
+            ctx.label("W:subnormal")
+    if b is not None and np.max(np.abs(b)) > 0:
+        e = np.log10(float(np.max(np.abs(b))))
+        ctx.label("scale:b<=1e-13" if e <= -13 else ("scale:b<1e-3" if e < -3 else ("scale:b>=1e13" if e >= 13 else
+                  ("scale:b>1e3" if e > 3 else "scale:b~1"))))
     if zr:
         ctx.label("W:zero_row")
     if zc:
@@ -414,7 +496,8 @@ def w_classes(W, ctx):
         rank, amb = 0, False
     else:
         rank = int(np.sum(s > 1e-7 * smax))
-        amb = bool(np.any((s >= 1e-14 * smax) & (s <= 1e-7 * smax)))
+        # undecidable window: from half the relative cut-off of pinv / lstsq, max(m, n) * eps, up to the 1e-7 used here
+        amb = bool(np.any((s >= 0.5 * max(m, n) * U * smax) & (s <= 1e-7 * smax)))
     if rank < min(m, n):
         ctx.label("W:rank_deficient")
     if amb:
@@ -430,11 +513,11 @@ def ref_sart(W, b, x0, max_it, relax, conv_tol, L, beta, vectorised):
     dens = W.sum(axis=0)                      # W_{+,l}
     live = ray != 0
     bb = float(np.dot(b, b))
-    wb = float(np.linalg.norm(W)) / np.sqrt(bb)          # |W|_F / |b|
+    wb = float(_norm(W)) / np.sqrt(bb)          # |W|_F / |b|
     conv, cerr, clipped, xscale, margin_bad = [], [], False, float(np.max(np.abs(x))) if n else 0.0, False
     if vectorised:
         Wn = np.zeros_like(W)
-        Wn[live] = W[live] / ray[live][:, None]
+        Wn[live] = W[live] * (1.0 / ray[live])[:, None]      # product with the reciprocal here, quotient in the loops below
     for k in range(max_it):
         resid = b - np.dot(W, x)              # Phi - Phi_hat of the previous iterate
         new = x.copy()
@@ -472,7 +555,8 @@ def ref_sart(W, b, x0, max_it, relax, conv_tol, L, beta, vectorised):
                 margin_bad = True
             if d < conv_tol:
                 break
-    return x, conv, {"clipped": clipped, "xscale": xscale, "margin_bad": margin_bad, "cscale": max(cerr)}
+    finite = bool(np.all(np.isfinite(x)) and np.all(np.isfinite(conv)) and np.isfinite(xscale) and np.all(np.isfinite(cerr)))
+    return x, conv, {"clipped": clipped, "xscale": xscale, "margin_bad": margin_bad, "cscale": max(cerr), "finite": finite}
 
 
 _NP = {"float64": np.float64, "float32": np.float32, "int64": np.int64, "int32": np.int32, "bool": np.bool_}
@@ -534,17 +618,39 @@ def _cert(W, b, L, alpha):
     return C, d
 
 
+def _norm(a):
+    """Euclidean / Frobenius norm that neither overflows nor underflows for entries beyond 1e+-154."""
+    a = np.abs(np.asarray(a, dtype=float)).ravel()
+    top = float(a.max()) if a.size else 0.0
+    if top == 0.0 or not np.isfinite(top):
+        return top
+    return top * float(np.sqrt(np.sum((a / top) ** 2)))
+
+
 LS = 1e-12        # nnls / lstsq certificate coefficient (see TOLERANCES); the svd wrapper keeps 1e-8
 
 
 def _eps(C, x, d, coef=1e-8):
     nc = float(np.linalg.norm(C, 2)) if C.size else 0.0
-    return coef * (nc * nc * float(np.linalg.norm(x)) + nc * float(np.linalg.norm(d))), nc
+    return coef * nc * (nc * float(_norm(x)) + float(_norm(d))), nc        # order of the products: no under / overflow
 
 
 # ------------------------------------------------------------------------------------------------ run functions
 F_SCIPY = "C11-nnls-scipy-nonoptimal"
 F_GUESS = "C11-sart-guess-inplace"
+F_SUBN = "C11-sart-subnormal-sum-overflow"
+RECIP_OVERFLOW = 5.563e-309          # 1/x overflows to inf for 0 < x below this (subnormal) value
+
+
+def _subnormal_sum_gate(case, ctx, W0):
+    """known finding: the SART solvers multiply by 1/W(k,+) and relaxation/W(+,l); for a subnormal ray length / column sum
+    below 5.56e-309 the reciprocal is inf and the result nan or inf.  While open, that input class is not judged."""
+    sums = np.concatenate([W0.sum(axis=0), W0.sum(axis=1)])
+    hit = bool(np.any((sums > 0) & (sums < RECIP_OVERFLOW)))
+    if hit and is_open(F_SUBN) and not case.get("probe"):
+        ctx.label("excluded_known")
+        return True
+    return False
 
 
 class Owned:
@@ -621,24 +727,32 @@ def _guess_sharing(case, ctx, is_array):
 
 
 def _certify_sart(ctx, W, b, L, x0, variant, prm, x, conv, call_no, structural):
-    """compare one call's result with the reference iterate from the PRISTINE inputs; returns non-triviality or None."""
+    """compare one call's result with the reference iterate from the PRISTINE inputs; returns {"nt", "xs", "cs"} or None."""
     n = W.shape[1]
     max_it, relax, tol, beta = _sart_eff(prm, variant)
     tag = "" if call_no == 1 else " [call %d on the same objects]" % call_no
     ctx.check(x.shape == (n,), "shape", "solution shape %s, expected (%d,)%s" % (x.shape, n, tag))
-    ctx.check(bool(np.all(np.isfinite(x))), "finite", lambda: "non-finite solution %r%s" % (x.tolist(), tag))
-    ctx.check(bool(np.all(x >= 0)), "nonneg", lambda: "negative entries in the solution: %r%s" % (x.tolist(), tag))
-    ctx.check(1 <= len(conv) <= max_it, "conv-len", "convergence list of length %d with max_iterations=%d%s" % (len(conv), max_it, tag))
     xa, ca, ia = ref_sart(W, b, x0, max_it, relax, tol, L, beta, False)
     xb, cb, ib = ref_sart(W, b, x0, max_it, relax, tol, L, beta, True)
-    xs, cs = ia["xscale"], ia["cscale"]
-    if ia["margin_bad"] or ib["margin_bad"]:
-        ctx.label("inconclusive:stop_ambiguous")
+    if not (ia["finite"] and ib["finite"]):
+        # overflow / invalid operation inside the literal evaluation itself (1/W(+,l) or 1/W(k,+) of a subnormal sum, ...)
+        ctx.label("inconclusive:reference_not_finite")
         return None
+    xs, cs = ia["xscale"], ia["cscale"]
     if len(ca) != len(cb) or float(np.max(np.abs(xa - xb))) > 1e-12 * xs \
             or max(abs(p - q) for p, q in zip(ca, cb)) > 1e-12 * cs:
         ctx.label("inconclusive:ill_conditioned")
         return None
+    # stop decision |conv[k] - conv[k-1]| < conv_tol: ambiguous when it is closer to conv_tol than the rounding noise of the
+    # convergence numbers, measured as 1000 x the difference between the two summation orders plus 1e-12 relative
+    for k in range(1, len(ca)):
+        noise = 1e3 * (abs(ca[k] - cb[k]) + abs(ca[k - 1] - cb[k - 1])) + 1e-12 * (1.0 + abs(ca[k]) + abs(ca[k - 1]))
+        if tol > 0 and abs(abs(ca[k] - ca[k - 1]) - tol) <= noise:
+            ctx.label("inconclusive:stop_ambiguous")
+            return None
+    ctx.check(bool(np.all(np.isfinite(x))), "finite", lambda: "non-finite solution %r%s" % (x.tolist(), tag))
+    ctx.check(bool(np.all(x >= 0)), "nonneg", lambda: "negative entries in the solution: %r%s" % (x.tolist(), tag))
+    ctx.check(1 <= len(conv) <= max_it, "conv-len", "convergence list of length %d with max_iterations=%d%s" % (len(conv), max_it, tag))
     if ia["clipped"]:
         ctx.label("clipped")
     if beta > 0:
@@ -650,7 +764,57 @@ def _certify_sart(ctx, W, b, L, x0, variant, prm, x, conv, call_no, structural):
               % (len(conv), len(ca), conv[:6], ca[:6], tag))
     ctx.close(x, xa, "iterate", rtol=1e-10, scale=xs, info="(iterations=%d)%s" % (len(ca), tag))
     ctx.close(conv, ca, "convergence", rtol=1e-10, scale=cs, info=tag)
-    return len(ca) >= 2 and (ia["clipped"] or beta > 0 or structural)
+    return {"nt": len(ca) >= 2 and (ia["clipped"] or beta > 0 or structural), "xs": xs, "cs": cs}
+
+
+def _in_range(*arrays):
+    """all non-zero magnitudes inside [1e-100, 1e100]: scaling by 2^k, |k| <= 60, is then exact in every intermediate."""
+    for a in arrays:
+        a = np.abs(np.asarray(a, dtype=float))
+        nz = a[a > 0]
+        if nz.size and (nz.min() < 1e-100 or nz.max() > 1e100 or not np.all(np.isfinite(nz))):
+            return False
+    return True
+
+
+def _sart_equiv(ctx, case, W0, b0, L0, x0, variant, prm, x1, conv1, cert1):
+    """scale equivariance of the documented rule: SART(cW, cb, x0) = SART(W, b, x0) and SART(W, cb, c x0) = c SART(W, b, x0),
+    convergence list unchanged; for c = 2^k every operation scales exactly, so the results must be bit-identical."""
+    eq = case.get("equiv")
+    if not eq:
+        return
+    kind, c = eq["kind"], 2.0 ** int(eq["k"])
+    g = case["guess"]
+    if kind == "b" and (g is None or isinstance(g, int) or case.get("guess_form", "float64") not in ("float64", "list")):
+        kind = "Wb"                                  # the guess cannot be scaled (default exp(-1) / integer / float32 guess)
+    W2, b2, x2_0, cx = (W0 * c, b0 * c, x0, 1.0) if kind == "Wb" else (W0, b0 * c, x0 * c, c)
+    if not (_in_range(W0, b0, x0, x1, W2, b2, x2_0) and bool(np.all(np.isfinite(x1)))):
+        ctx.label("equiv:skipped_range")
+        return
+    kw = _sart_kw(prm, variant)
+    if g is not None:
+        kw["initial_guess"] = (float(g) * cx if not isinstance(g, int) else g) if not isinstance(g, list) else x2_0.copy()
+    # same memory layouts / dtypes as in the first call: BLAS then sums in the same order and 2^k scaling is exact
+    W2, b2 = _obj(W2, "float64", case.get("layout", "C")), _obj(b2, "float64", case.get("b_layout", "C"))
+    with ctx.cut("call"):
+        if variant == "plain":
+            x2, conv2 = invert_sart(W2, b2, **kw)
+        else:
+            x2, conv2 = invert_constrained_sart(W2, _obj(L0, case["L"].get("dtype", "float64"), case["L"].get("layout", "C")), b2, **kw)
+        x2 = np.array(x2, dtype=float)
+        conv2 = [float(v) for v in conv2]
+    ctx.label("equiv:" + kind)
+    if conv2 == conv1 and np.array_equal(x2, cx * x1):
+        ctx.label("equiv:bit_exact")
+        return
+    ctx.label("equiv:not_bit_exact")
+    if cert1 is None:                                # call 1 could not be judged (ill-conditioned / ambiguous stop): no tolerance known
+        return
+    what = "scale-equivariance"
+    msg = "SART(%s) with c = 2^%d" % ("c W, c b" if kind == "Wb" else "W, c b, c x0", int(eq["k"]))
+    ctx.check(len(conv2) == len(conv1), what, lambda: "%s stops after %d iterations instead of %d" % (msg, len(conv2), len(conv1)))
+    ctx.close(x2, cx * x1, what, rtol=1e-10, scale=cx * cert1["xs"], info=msg + ": result is not %s the unscaled one" % ("c times" if cx != 1 else "equal to"))
+    ctx.close(conv2, conv1, what, rtol=1e-10, scale=cert1["cs"], info=msg + ": convergence list changed")
 
 
 def run_sart(case, ctx):
@@ -659,7 +823,9 @@ def run_sart(case, ctx):
     W0, b0, W, b = _wb(case, ctx, owned, "geometry_matrix", "measurement_vector")   # SART: float64 only, any layout
     m, n = W0.shape
     ctx.label("variant:" + variant, "b:" + case["b"]["kind"])
-    degenerate, rank, _, _ = w_classes(W0, ctx)
+    degenerate, rank, _, _ = w_classes(W0, ctx, b0)
+    if _subnormal_sum_gate(case, ctx, W0):
+        return
     L0 = L = None
     if variant == "constrained":
         ctx.label("L:" + case["L"]["kind"])
@@ -705,8 +871,11 @@ def run_sart(case, ctx):
         if glist is not None:
             ctx.check(glist == [float(v) for v in g], "inputs-unmodified", "the caller's initial_guess list was modified by call %d" % call_no)
         r = _certify_sart(ctx, W0, b0, L0, x0, variant, prm, x, conv, call_no, degenerate or rank < min(m, n))
-        nt = nt or bool(r)
+        nt = nt or bool(r and r["nt"])
+        if call_no == 1:
+            first = (prm, x, conv, r)
     owned.verdict(ctx)
+    _sart_equiv(ctx, case, W0, b0, L0, x0, variant, first[0], first[1], first[2], first[3])
     ctx.nt(nt)
 
 
@@ -718,8 +887,10 @@ def run_sart_fixed(case, ctx):
     m, n = W0.shape
     ctx.label("variant:" + variant)
     degenerate, rank, _, _ = w_classes(W0, ctx)
-    if not np.max(b0) > 0:          # cannot happen by construction; an all-zero b is outside the accepted inputs
+    if not float(np.dot(b0, b0)) > 1e-290:      # cannot happen by construction; an all-zero b is outside the accepted inputs
         ctx.label("skipped:zero_b")
+        return
+    if _subnormal_sum_gate(case, ctx, W0):
         return
     L = None
     if variant == "constrained":
@@ -771,7 +942,7 @@ def _reg_setup(case, ctx):
         ctx.label("alpha:default")
     # a float32 Tikhonov matrix: the solvers form alpha * L in float32 (numpy keeps the array dtype for a Python-float factor),
     # i.e. they solve with (alpha L)(1 + delta), |delta| <= 2^-24; lfro = |L|_F enters the certificate tolerances (see TOLERANCES).
-    lfro = float(np.linalg.norm(L0)) if (L0 is not None and ldt == "float32") else 0.0
+    lfro = float(_norm(L0)) if (L0 is not None and ldt == "float32") else 0.0
     if lfro:
         ctx.label("precision:L_float32")
     return W0, b0, L0, W, b, L, owned, base, lfro
@@ -792,7 +963,7 @@ def _kkt_ok(C, d, x, rnorm):
     eps, nc = _eps(C, x, d, LS)
     xm = float(np.max(x)) if x.size else 0.0
     return bool(np.all(x >= 0) and np.all(g >= -eps) and np.all(np.abs(g) * x <= eps * xm)
-                and abs(rnorm - float(np.linalg.norm(r))) <= LS * (nc * float(np.linalg.norm(x)) + float(np.linalg.norm(d))))
+                and abs(rnorm - float(_norm(r))) <= LS * (nc * float(_norm(x)) + float(_norm(d))))
 
 
 def _scipy_nnls_wrong(C, d):
@@ -805,14 +976,64 @@ def _scipy_nnls_wrong(C, d):
     return not _kkt_ok(C, d, np.array(x, dtype=float), float(rn) * vmax)
 
 
+def _unrepresentable(C):
+    """True when the smallest singular value the solvers keep (above max(m, n) * eps * sigma_max) is below 1e-290: its
+    reciprocal, and with it the pseudo-inverse / possibly the minimiser, exceeds the largest double."""
+    sv = _svals(C)
+    kept = sv[sv > max(C.shape) * U * sv[0]] if (sv.size and sv[0] > 0) else sv[:0]
+    return bool(kept.size and kept[-1] < 1e-290)
+
+
+def _lin_equiv(ctx, case, kind_ok, solve, W0, b0, x1, C1, d1, what="scale-equivariance"):
+    """linear solvers: solve(W, c b) = c solve(W, b) and solve(c W, c b; c alpha) = solve(W, b; alpha), c = 2^k.
+    `solve(W, b, c_alpha)` returns the solution of the scaled problem (None = not judged).  Bit-identical results are expected
+    (power-of-two scaling commutes with every rounding); otherwise the difference must stay inside the conditioning bound
+    1e-12 * kappa(C)^2 * (|x| + |d|/|C|) of two backward-stable solves, judged only for a clearly full-rank stacked matrix."""
+    eq = case.get("equiv")
+    if not eq or not kind_ok:
+        return
+    kind, c = eq["kind"], 2.0 ** int(eq["k"])
+    W2, b2, ca, cx = (W0 * c, b0 * c, c, 1.0) if kind == "Wb" else (W0, b0 * c, 1.0, c)
+    if not (_in_range(W0, b0, x1, W2, b2, cx * x1) and bool(np.all(np.isfinite(x1)))):
+        ctx.label("equiv:skipped_range")
+        return
+    with ctx.cut("call", allowed=(RuntimeError,)):
+        try:
+            x2 = solve(W2, b2, ca)
+        except RuntimeError:
+            x2 = None
+    if x2 is None:
+        ctx.label("equiv:skipped_inconclusive")
+        return
+    ctx.label("equiv:" + kind)
+    if np.array_equal(x2, cx * x1):
+        ctx.label("equiv:bit_exact")
+        return
+    ctx.label("equiv:not_bit_exact")
+    sv = _svals(C1)
+    if not (sv.size and sv[0] > 0 and sv[-1] > 1e-7 * sv[0] and C1.shape[0] >= C1.shape[1]):
+        ctx.label("equiv:not_bit_exact_rank_deficient")      # solution not unique / not continuous: nothing to compare
+        return
+    kappa = float(sv[0] / sv[-1])
+    tol = 1e-12 * kappa * kappa * (float(_norm(x1)) + float(_norm(d1)) / float(sv[0]))
+    err = float(np.max(np.abs(x2 - cx * x1))) / cx
+    ctx.check(err <= tol, what, lambda: "solve(%s) with c = 2^%d differs from %s by %.3g > %.3g (kappa = %.3g)"
+              % ("c W, c b, c alpha" if kind == "Wb" else "W, c b", int(eq["k"]), "solve(W, b)" if kind == "Wb" else "c solve(W, b)",
+                 err, tol, kappa))
+
+
 def run_nnls(case, ctx):
     W0, b0, L0, W, b, L, owned, base, lfro = _reg_setup(case, ctx)
     m, n = W0.shape
-    degenerate, rank, _, _ = w_classes(W0, ctx)
+    degenerate, rank, _, _ = w_classes(W0, ctx, b0)
     any_active = False
+    first = None
     for call_no, prm in enumerate(_calls(case, base, ctx), 1):
         kw, alpha = _reg_kw(prm, L)
         tag = "" if call_no == 1 else " [call %d on the same objects]" % call_no
+        if _unrepresentable(_cert(W0, b0, L0, alpha)[0]):
+            ctx.label("skipped:pseudo_inverse_not_representable")
+            continue
         try:
             with ctx.cut("call", allowed=(RuntimeError,)):
                 x, rnorm = invert_regularised_nnls(W, b, **kw)
@@ -837,7 +1058,7 @@ def run_nnls(case, ctx):
         r = np.dot(C, x) - d
         g = np.dot(C.T, r)
         eps, nc = _eps(C, x, d, LS)
-        sl = U32 * alpha * lfro * float(np.linalg.norm(x))      # float32 Tikhonov matrix only: bound on |(fl32(alpha L) - alpha L) x|
+        sl = U32 * alpha * lfro * float(_norm(x))      # float32 Tikhonov matrix only: bound on |(fl32(alpha L) - alpha L) x|
         eps += 3.0 * alpha * lfro * sl
         ctx.check(bool(np.all(g >= -eps)), "kkt-dual",
                   lambda: "gradient C^T(Cx-d) has entry %.6g < -eps=%.3g at %d: x is not a minimiser over x>=0 (alpha=%g)%s"
@@ -847,12 +1068,24 @@ def run_nnls(case, ctx):
         ctx.check(bool(np.all(comp <= eps * xm)), "kkt-complementarity",
                   lambda: "|g_i| x_i = %.6g > eps*max(x) = %.3g at %d (g_i=%.6g, x_i=%.6g, alpha=%g)%s"
                   % (float(comp.max()), eps * xm, int(np.argmax(comp)), float(g[np.argmax(comp)]), float(x[np.argmax(comp)]), alpha, tag))
-        rn = float(np.linalg.norm(r))
-        ctx.check(abs(rnorm - rn) <= LS * (nc * float(np.linalg.norm(x)) + float(np.linalg.norm(d))) + sl, "rnorm",
+        rn = float(_norm(r))
+        ctx.check(abs(rnorm - rn) <= LS * (nc * float(_norm(x)) + float(_norm(d))) + sl, "rnorm",
                   lambda: "reported residual norm %.12g, but |Cx-d| = %.12g (max(b)=%g)%s" % (rnorm, rn, float(b0.max()), tag))
         if bool(np.any((x == 0) & (g > eps))):
             any_active = True
+        if call_no == 1:
+            first = (x, alpha, C, d)
     owned.verdict(ctx)
+    if first is not None:
+        def solve(W2, b2, ca):
+            C2, d2 = _cert(W2, b2, L0, ca * first[1])
+            if is_open(F_SCIPY) and _scipy_nnls_wrong(C2, d2):
+                return None
+            kw2 = {"alpha": ca * first[1]}
+            if L0 is not None:
+                kw2["tikhonov_matrix"] = L0.copy()
+            return np.array(invert_regularised_nnls(W2, b2, **kw2)[0], dtype=float)
+        _lin_equiv(ctx, case, not lfro, solve, W0, b0, first[0], first[2], first[3])
     if any_active:
         ctx.label("active_constraint")
     ctx.nt(degenerate or rank < min(m, n) or any_active)
@@ -861,11 +1094,15 @@ def run_nnls(case, ctx):
 def run_lstsq(case, ctx):
     W0, b0, L0, W, b, L, owned, base, lfro = _reg_setup(case, ctx)
     m, n = W0.shape
-    degenerate, rank, _, _ = w_classes(W0, ctx)
+    degenerate, rank, _, _ = w_classes(W0, ctx, b0)
     c_def_any = False
+    first = None
     for call_no, prm in enumerate(_calls(case, base, ctx), 1):
         kw, alpha = _reg_kw(prm, L)
         tag = "" if call_no == 1 else " [call %d on the same objects]" % call_no
+        if _unrepresentable(_cert(W0, b0, L0, alpha)[0]):
+            ctx.label("skipped:pseudo_inverse_not_representable")
+            continue
         with ctx.cut("call"):
             x, res = invert_regularised_lstsq(W, b, **kw)
             x = np.array(x, dtype=float)
@@ -876,25 +1113,34 @@ def run_lstsq(case, ctx):
         r = np.dot(C, x) - d
         g = np.dot(C.T, r)
         eps, nc = _eps(C, x, d, LS)
-        sl = U32 * alpha * lfro * float(np.linalg.norm(x))      # float32 Tikhonov matrix only, see run_nnls
+        sl = U32 * alpha * lfro * float(_norm(x))      # float32 Tikhonov matrix only, see run_nnls
         eps += 3.0 * alpha * lfro * sl
-        ctx.check(float(np.linalg.norm(g)) <= eps, "normal-equations",
+        ctx.check(float(_norm(g)) <= eps, "normal-equations",
                   lambda: "|C^T(Cx-d)| = %.6g > eps = %.3g: x does not minimise |Wx-b|^2 + alpha^2|Lx|^2 (alpha=%g)%s"
-                  % (float(np.linalg.norm(g)), eps, alpha, tag))
+                  % (float(_norm(g)), eps, alpha, tag))
         ctx.check(res.size <= 1, "residuals-shape", "residuals of size %d" % res.size)
         sc = _svals(C)
         c_def = bool(sc.size and sc[0] > 0 and sc[-1] <= 1e-7 * sc[0]) or not (sc.size and sc[0] > 0)
         if res.size == 1:
             ctx.label("residuals:reported")
             rr = float(np.dot(r, r))
-            scale = nc * float(np.linalg.norm(x)) + float(np.linalg.norm(d))
+            scale = nc * float(_norm(x)) + float(_norm(d))
             tol = LS * scale ** 2 + sl * (2.0 * scale + sl)
             ctx.check(abs(float(res[0]) - rr) <= tol, "residuals",
                       lambda: "reported residual %.12g, but |Cx-d|^2 = %.12g%s" % (float(res[0]), rr, tag))
         else:
             ctx.label("residuals:empty")
         c_def_any = c_def_any or c_def
+        if call_no == 1:
+            first = (x, alpha, C, d)
     owned.verdict(ctx)
+    if first is not None:
+        def solve(W2, b2, ca):
+            kw2 = {"alpha": ca * first[1]}
+            if L0 is not None:
+                kw2["tikhonov_matrix"] = L0.copy()
+            return np.array(invert_regularised_lstsq(W2, b2, **kw2)[0], dtype=float)
+        _lin_equiv(ctx, case, not lfro, solve, W0, b0, first[0], first[2], first[3])
     if c_def_any:
         ctx.label("C:rank_deficient")
     ctx.nt(degenerate or rank < min(m, n) or c_def_any)
@@ -909,11 +1155,15 @@ def run_svd(case, ctx):
     W0, b0, W, b = _wb(case, ctx, owned, "w_matrix", "b_vector")
     m, n = W0.shape
     ctx.label("b:" + case["b"]["kind"])
-    degenerate, rank, amb, vh = w_classes(W0, ctx)
+    degenerate, rank, amb, vh = w_classes(W0, ctx, b0)
+    first = None
     # scipy.linalg.pinv computes in single precision for float32 and bool (also int8/16, float16) matrices and in double
     # precision for float64 / int32 / int64: the wrapper inherits that, so those inputs get a single-precision certificate.
     single = case.get("W_dtype", "float64") in ("float32", "bool")
     kappa = sr = None
+    if _unrepresentable(W0):
+        ctx.label("skipped:pseudo_inverse_not_representable")
+        return
     if single:
         ctx.label("precision:single")
         sv = _svals(W0)
@@ -942,20 +1192,26 @@ def run_svd(case, ctx):
         r = np.dot(W0, x) - b0
         g = np.dot(W0.T, r)
         eps, nc = _eps(W0, x, b0)
-        nx, nb = float(np.linalg.norm(x)), float(np.linalg.norm(b0))
+        nx, nb = float(_norm(x)), float(_norm(b0))
         mtol = 1e-8 * nx
         if single:
-            eps = 10.0 * U32 * kappa * (nc * nc * nx + nc * nb)
+            eps = 10.0 * U32 * kappa * nc * (nc * nx + nb)
             mtol = 10.0 * U32 * kappa * (nx + nb / sr)
-        ctx.check(float(np.linalg.norm(g)) <= eps, "normal-equations",
-                  lambda: "|W^T(Wx-b)| = %.6g > eps = %.3g: x is not a least-squares solution%s" % (float(np.linalg.norm(g)), eps, tag))
+        ctx.check(float(_norm(g)) <= eps, "normal-equations",
+                  lambda: "|W^T(Wx-b)| = %.6g > eps = %.3g: x is not a least-squares solution%s" % (float(_norm(g)), eps, tag))
         if not amb:
             null = vh[rank:]
-            comp = float(np.linalg.norm(np.dot(null, x))) if null.size else 0.0
+            comp = float(_norm(np.dot(null, x))) if null.size else 0.0
             ctx.check(comp <= mtol, "minimum-norm",
                       lambda: "null-space component of x is %.6g > %.3g (|x| = %.6g, rank %d of n=%d): not the minimum-norm solution%s"
                       % (comp, mtol, nx, rank, n, tag))
+        if call_no == 1:
+            first = x
     owned.verdict(ctx)
+    if first is not None and not single and not amb and rank > 0:
+        # compare on the row space only: C1 = W restricted to its clear rank (pinv is continuous there)
+        _lin_equiv(ctx, case, True, lambda W2, b2, ca: np.array(invert_svd(W2, b2), dtype=float), W0, b0, first,
+                   np.dot(W0, vh[:rank].T) if rank < n else W0, b0)
     ctx.nt(degenerate or rank < n)
 
 
